@@ -323,6 +323,12 @@ func runC06Batch(c C06Batch, info *kit.Info) *kit.Finding {
 		return nil
 	}
 	defer w.close()
+	// Distinct handshakes per probe of the batch: two probes that drew the same (key, seed) would otherwise be a
+	// genuine replay of each other when the cache is on.
+	c.Probes = append([]C06Probe(nil), c.Probes...)
+	for i := range c.Probes {
+		c.Probes[i].Seed = c.Probes[i].Seed*64 + int64(i)
+	}
 	res := make([]*kit.Finding, len(c.Probes))
 	hit := make([]bool, len(c.Probes))
 	classes := make([]string, len(c.Probes))
